@@ -1086,10 +1086,12 @@ class BADS:
                 self.options["noise_size"] = self.options["noise_size"].item()
 
             # Keep some function evaluations for the final resampling
-            self.options["noise_final_samples"] = min(
-                self.options["noise_final_samples"],
-                self.options["max_fun_evals"]
-                - self.function_logger.func_count,
+            self.options["noise_final_samples"] = int(
+                min(
+                    self.options["noise_final_samples"],
+                    self.options["max_fun_evals"]
+                    - self.function_logger.func_count,
+                )
             )
             self.options["max_fun_evals"] = (
                 self.options["max_fun_evals"]
